@@ -450,13 +450,20 @@ fn run_op(h: &Handle, op: &Value, ctx: &Ctx) -> Outcome {
             Handle::Stack(c) => {
                 let pop = op["populate"].as_str().unwrap_or("value").to_string();
                 let popmode = op["popmode"].as_u64();
+                let popchop = op["popchop"].as_u64();
                 phase("lib");
                 from_file(c.ensure(key, |dst| {
                     phase("cb");
                     let r = match pop.as_str() {
                         "notfound" => Err(std::io::Error::new(std::io::ErrorKind::NotFound, "populate: not found")),
                         "error" => Err(std::io::Error::new(std::io::ErrorKind::Other, "populate: failed")),
-                        _ => write_value(dst, name, val, pid, chunks, chunk).and_then(|_| match popmode {
+                        _ => write_value(dst, name, val, pid, chunks, chunk).and_then(|_| match popchop {
+                            Some(n) => {
+                                let len = dst.metadata()?.len();
+                                dst.set_len(len.saturating_sub(n))
+                            }
+                            None => Ok(()),
+                        }).and_then(|_| match popmode {
                             // a populate callback that chmods the file it was given
                             Some(m) => {
                                 use std::os::unix::fs::PermissionsExt;
@@ -476,6 +483,7 @@ fn run_op(h: &Handle, op: &Value, ctx: &Ctx) -> Outcome {
                 let pop = op["populate"].as_str().unwrap_or("value").to_string();
                 let action = op["judge"].as_str().unwrap_or("accept").to_string();
                 let consume = op["consume"].as_bool().unwrap_or(true);
+                let popchop2 = op["popchop"].as_u64();
                 let seen: Arc<Mutex<Option<Value>>> = Arc::new(Mutex::new(None));
                 let seen2 = seen.clone();
                 let oldseen: Arc<Mutex<Option<Value>>> = Arc::new(Mutex::new(None));
@@ -508,7 +516,13 @@ fn run_op(h: &Handle, op: &Value, ctx: &Ctx) -> Outcome {
                         let r = match pop.as_str() {
                             "notfound" => Err(std::io::Error::new(std::io::ErrorKind::NotFound, "populate: not found")),
                             "error" => Err(std::io::Error::new(std::io::ErrorKind::Other, "populate: failed")),
-                            _ => write_value(dst, name, val, pid, chunks, chunk),
+                            _ => write_value(dst, name, val, pid, chunks, chunk).and_then(|_| match popchop2 {
+                                Some(n) => {
+                                    let len = dst.metadata()?.len();
+                                    dst.set_len(len.saturating_sub(n))
+                                }
+                                None => Ok(()),
+                            }),
                         };
                         phase("lib");
                         r
@@ -583,6 +597,11 @@ fn run_world_op(op: &Value, ctx: &Ctx) -> Outcome {
                     let chunks = op["chunks"].as_u64().unwrap_or(1) as u32;
                     let w = op["w"].as_u64().unwrap_or(0) as u32;
                     write_value(&mut f, key, val, w, chunks, ctx.chunk)?;
+                }
+                // "chop": the file is that many bytes short of the value (a copy that lost its tail)
+                if let Some(n) = op["chop"].as_u64() {
+                    let len = f.metadata()?.len();
+                    f.set_len(len.saturating_sub(n))?;
                 }
             }
             if let Some(mode) = op["mode"].as_u64() {
